@@ -83,7 +83,7 @@ def wrapper_case(case):
     if cfg["samples2"] == 3 or cfg["fn"] == "detrend":
         df.index = np.arange(n) * 2 + 5            # a non-default index (row-sliced / time-indexed frames)
     df0 = df.copy(deep=True)
-    cols = {"none": None, "a": ["a"], "ab": ["a", "b"], "as": ["a", "s"], "zz": ["a", "zz"]}[cfg["sel"]]
+    cols = {"none": None, "a": ["a"], "ab": ["a", "b"], "as": ["a", "s"], "zz": ["a", "zz"], "aa": ["a", "a"]}[cfg["sel"]]
     fs = 4.0
     samples = cfg["samples2"] / 2.0
     seconds = 0.0 if cfg["zero"] else samples / fs
@@ -128,6 +128,22 @@ def wrapper_case(case):
         else:
             if len(r) and not np.array_equal(r[c].to_numpy(), src[sl]):
                 probs.append(("unselected_column_changed", c, ""))
+    if cfg.get("chain") and isinstance(case.get("chain"), dict) and case["chain"]:
+        # second call on the first call's result: every numeric column by one sample, not in place (DfWrapper.tla ApplyShift)
+        r_before = r.copy(deep=True)
+        r2 = dsp.df_timeshift(r, fs, 1.0 / fs, columns=None, truncate=None, inplace=False)
+        if not r.equals(r_before):
+            probs.append(("caller_frame_modified", "second call", ""))
+        want = set(case["chain"].keys()) | {"s"}
+        if set(r2.columns) != want:
+            probs.append(("column_set_after_second_call", sorted(r2.columns), sorted(want)))
+            return probs
+        for name, prov in case["chain"].items():
+            val = df0[prov["root"]].to_numpy()
+            for s2 in prov["shifts"]:
+                val = dsp.timeshift(val, s2 / 2.0)
+            if not np.allclose(np.asarray(r2[name], dtype=float), np.asarray(val, dtype=float), rtol=0, atol=1e-9):
+                probs.append(("column_after_second_call", name, f"expected {prov['root']} shifted by {[s2 / 2 for s2 in prov['shifts']]} samples"))
     return probs
 
 
@@ -160,9 +176,26 @@ def record_high_order(spec):
         scale = max(1.0, float(np.abs(data).max())) * max(1.0, float(np.abs(taps).sum()))
         qres = float(np.max(np.abs(out - truth)[interior]) / scale) if interior.any() else 0.0
         qpath = float(np.max(np.abs(out - outv)[interior]) / scale) if interior.any() else 0.0
+        qloc = qint = 0
+        if spec.get("kind") == "long":
+            # a record with a dynamic range of 1e12 (isolated glitches on a 1e-3 noise floor): every interior output sample is the
+            # LOCAL Lagrange interpolant - its error is relative to the samples under its own stencil, not to the record's maximum -
+            # and an integer shift is an exact displacement
+            g = 1e-3 * rng.standard_normal(N)
+            g[rng.integers(200, N - 200, size=6)] += 1e9
+            og = np.asarray(dsp.timeshift(g, s, order=order), dtype=float)
+            idx = np.concatenate([rng.integers(2 * h + 4, N - 2 * h - 4, size=4000), np.arange(2 * h + 4, 2 * h + 300)])
+            stencil = idx[:, None] + si - (h - 1) + np.arange(2 * h)[None, :]
+            loc = g[stencil] * taps[None, :]
+            qloc = float(np.max(np.abs(og[idx] - loc.sum(axis=1)) / np.maximum(np.abs(loc).sum(axis=1), 1e-300)))
+            k = int(rng.integers(1, 4)) * (1 if rng.random() < 0.5 else -1)
+            oi = np.asarray(dsp.timeshift(g, float(k), order=order), dtype=float)
+            nn = np.arange(h + 4, N - h - 4)
+            qint = int(np.count_nonzero(oi[nn] != g[nn + k]))
         ev.append({"order": int(order), "qsum": traces.q(qsum, 2 ** 30), "qres": traces.q(qres, 2 ** 30), "qpath": traces.q(qpath, 2 ** 30),
                    "qrep": traces.q(float(np.max(np.abs(outv2 - outv))), 2 ** 30),
-                   "same": int(np.array_equal(args_s, args_s0) and np.array_equal(data, d0))})
+                   "same": int(np.array_equal(args_s, args_s0) and np.array_equal(data, d0)),
+                   "qloc": traces.q(qloc, 2 ** 30), "qint": min(qint, 2 ** 30)})
     return {"meta": dict(spec), "c": {}, "ev": ev}
 
 
@@ -201,7 +234,7 @@ def run(tier):
                         {"kind": "timeshift_case", "case": c, "message": f"{what}: shift {c['sInt']}+{c['d']} order {2*c['h']-1} data {c['data']}: got {got}, exact {exp}"})
     V.sample({"case": {k: cases[len(cases) // 2][k] for k in ("N", "h", "d", "sInt", "data", "taps", "out")}})
     # DataFrame wrappers
-    rw = tlc.run_model("DfWrapper", f"{PID}_wrapper", constants=dict(NRows=12, EmitCases=True), invariants=["OnlySelectedNumeric", "Emit"])
+    rw = tlc.run_model("DfWrapper", f"{PID}_wrapper", constants=dict(NRows=12, EmitCases=True), invariants=["OnlySelectedNumeric", "ChainShiftsOnce", "DuplicateSelectionIsIdempotent", "Emit"])
     if rw.violated:
         raise tlc.TLCError(f"DfWrapper.tla violates {rw.violated}")
     V.model(rw, "DfWrapper.tla: df_timeshift / df_detrend case table")
